@@ -246,7 +246,11 @@ func e4History(rng *rand.Rand, hid string) (ops []porcupine.Operation, clients, 
 					}
 					t1 = rec.now()
 				case "gracewrap":
-					// the process-global instance, through the entry point the traffic-routing manager uses
+					// the process-global instance, through the entry point the traffic-routing manager uses. RunWithGraceSeconds
+					// is a read-then-write sequence that relies on the work-queue never running two reconciles of one
+					// rollout at a time, so every key here belongs to ONE client (its own rollout); what is checked is that
+					// the other clients' traffic on their (look-alike) keys never changes this client's answers.
+					in.Key = fmt.Sprintf("%s#c%d", in.Key, c)
 					in.Action = graceActions[lr.Intn(len(graceActions))]
 					in.Op = []string{"run", "run", "run", "satisfied", "get", "observe"}[lr.Intn(6)]
 					in.Modified = lr.Intn(3) == 0
@@ -313,7 +317,9 @@ func e4History(rng *rand.Rand, hid string) (ops []porcupine.Operation, clients, 
 	wg.Wait()
 	// leave the process-global instance as found
 	for _, k := range keys {
-		grace.DefaultGraceExpectations.DeleteExpectations(k)
+		for c := 0; c < clients; c++ {
+			grace.DefaultGraceExpectations.DeleteExpectations(fmt.Sprintf("%s#c%d", k, c))
+		}
 	}
 	return rec.ops, clients, keysN
 }
@@ -434,7 +440,8 @@ func runLua(j luaJob) string {
 	}
 	var v interface{}
 	if json.Unmarshal(out, &v) == nil {
-		return gen.Canon(v)
+		b, _ := json.Marshal(v) // maps are written with sorted keys
+		return string(b)
 	}
 	return string(out)
 }
